@@ -85,7 +85,8 @@ def life_job(nthr, hist, pthr=0, rthr=0, pcfail=0, wfail=0, tier="quick"):
 
 HISTS = [("d", 0, 0), ("cd", 0, 0), ("csd", 0, 0), ("cswd", 0, 0), ("csswwd", 0, 0), ("cwsd", 0, 0), ("kd", 0, 0),
          ("cmd", 0, 0), ("cmsd", 1, 0), ("cpd", 0, 0), ("cprd", 0, 0), ("cprwd", 1, 1), ("csrd", 0, 0), ("csrwd", 0, 1),
-         ("kpawd", 1, 0), ("csad", 0, 0), ("cmprd", 0, 0), ("ksd", 0, 0)]
+         ("kpawd", 1, 0), ("csad", 0, 0), ("cmprd", 0, 0), ("ksd", 0, 0),
+         ("ksad", 0, 0)]    # shutdown beats the main thread's attach_first: must be refused (seeded change C11-attach-after-shutdown)
 
 
 def jobs(tier):
